@@ -250,6 +250,13 @@ func vlHistory(t *testing.T, enc *json.Encoder, hist int, rng *rand.Rand, nblock
 	}
 	fcfg := cfg
 	fcfg.GenesisSignature = gb.Sig
+	if hist%3 == 2 {
+		// the node under observation is itself configured as a block publisher (with and without arbitrating mode): what it
+		// is offered from outside is judged by the same rules
+		fcfg.IsBlockPublisher = true
+		fcfg.BlockchainSeckey = sec
+		fcfg.Arbitrating = rng.Intn(2) == 0
+	}
 	F := vlOpen(t, filepath.Join(dir, "f.db"), fcfg)
 	defer F.db.Close()
 
